@@ -52,6 +52,9 @@ pub const G02: u8 = 1;
 pub const G07: u8 = 2;
 pub const G10: u8 = 4;
 pub const G11: u8 = 8;
+/// C11 order clause over mixed QoS 1 / QoS 2 traffic: QoS 2 flows in their correct order do not
+/// disarm the order oracle, which then compares the QoS 1 subsequence only (see `check_order`)
+pub const G11M: u8 = 16;
 
 /// One generated history
 #[derive(Clone, Debug, Serialize, Deserialize)]
